@@ -263,7 +263,7 @@ Definition do_dt_add (c : fcfg) (now : Z) (id : Z) (fixed : bool) (start end_ du
   let k := c_kind (fc_base c) in
   (* flexible and already NOT-OK: trigger now *)
   let '(ds1, o1) :=
-    if negb fixed && negb (is_ok k (s_raw (f_st f)))
+    if negb fixed && s_has_cr (f_st f) && negb (is_ok k (s_raw (f_st f)))   (* Checkable::GetProblem(), /repo 7c445bb *)
     then trigger_dt (chain_fuel ds0) now (f_paused f) id (Z.max (Z.max start now) (f_lsc f)) ds0
     else (ds0, []) in
   let '(ds2, o2) :=
@@ -434,7 +434,7 @@ Definition do_result (c : fcfg) (now : Z) (r : cres) (f : full) : full * list ou
     let vol := c_volatile b in
     let send0 :=
       if i_hard_change i && negb (stype_eqb old_type Soft && is_ok k new_state) then true
-      else if vol && stype_eqb ty Hard then true else false in
+      else if vol && stype_eqb ty Hard && negb (stype_eqb old_type Soft && is_ok k new_state) then true else false in   (* /repo b9a7cb5 *)
     let send1 := if is_ok k old_state && stype_eqb old_type Soft then false else send0 in
     let send := if vol && is_ok k old_state && is_ok k new_state then false else send1 in
     let f5 := if rm_comments then remove_ack_comments (Some (r_end r)) f4 else f4 in
@@ -513,6 +513,13 @@ Definition set_supp (f : full) (spp spr spfs spfe : bool) : full :=
   set_core f (f_st f) (f_lsc f) spp spr spfs spfe (f_sbs f) (f_flap f) (f_next_check f).
 
 (* Checkable::FireSuppressedNotifications *)
+(* /repo 5e50b7a: hosts compare what they report (Up/Down), services the raw state *)
+Definition release_same_state (k : kind) (cur sbs : sstate) : bool :=
+  match k with
+  | KHost => Bool.eqb (is_ok k cur) (is_ok k sbs)
+  | KService => sstate_eqb cur sbs
+  end.
+
 Definition do_fire (c : fcfg) (now : Z) (f : full) : full * list out :=
   let k := c_kind (fc_base c) in
   if f_paused f then (f, [])
@@ -539,7 +546,7 @@ Definition do_fire (c : fcfg) (now : Z) (f : full) : full * list out :=
             else let '(a, fb, ob) := get_ack now fa in (negb (ackt_eqb a AckNone), fb, oa ++ ob) in
         if negb supp && stype_eqb (s_type (f_st fb)) Hard && negb (likely_checked_soon c now fb)
            && negb (parent_recovered_recently fb)
-        then (fb, ob ++ (if negb (sstate_eqb cur (f_sbs fb)) then [ONotify t] else []), true)
+        then (fb, ob ++ (if negb (release_same_state k cur (f_sbs fb)) then [ONotify t] else []), true)
         else (fb, ob, false)
       else (f, [], false) in
     (* flapping bits *)
